@@ -31,11 +31,15 @@ VH_FAMILY(mat)
   else { edge = -1; combo = int(c.rng.below(4)); static const int w[] = {0, 0, 0, 0, 0, 1, 1, 2, 3, 4, 5, 6, 7, 8, 9, 10}; sel = w[c.rng.below(sizeof(w) / sizeof(w[0]))]; }
   C06_DISPATCH(mat_dispatch, combo, c, edge, sel)
 }
-// composed filters: sel 0 none, 1 chain(unit,unit), 2 sequence, 3/4 chain(slip,unitblocked)<2/3>, 5 power, 6/7 tuple, 8 global
+// composed filters: sel 0 none, 1 chain(unit,unit), 2 sequence, 3/4 chain(slip,unitblocked)<2/3>, 5 power, 6/7 tuple, 8 global, 9..25 mixes
 VH_FAMILY(composed)
 {
-  const int combo = c.k < 36 ? int(c.k % 4) : int(c.rng.below(4));
-  const int sel = c.k < 36 ? int(c.k / 4) : int(c.rng.below(9));
+  // sel 0..8 as before; 9..25: composition oracle for mixes with mean filters (chains of length 2 and 3, sequences, tuple/power)
+  const int nsel = 26;
+  const int combo = c.k < std::uint64_t(4 * nsel) ? int(c.k % 4) : int(c.rng.below(4));
+  int sel;
+  if(c.k < std::uint64_t(4 * nsel)) sel = int(c.k / 4);
+  else sel = c.rng.coin(0.5) ? int(c.rng.below(9)) : 9 + int(c.rng.below(17));
   C06_DISPATCH(composed_dispatch, combo, c, -1L, sel)
 }
 VH_FEAT_MAIN
